@@ -2,6 +2,7 @@ package mon
 
 import (
 	"fmt"
+	"regexp"
 	"strings"
 
 	"github.com/antchfx/xpath"
@@ -22,14 +23,14 @@ func init() {
 	Register(&Monitor{
 		ID:         "C06",
 		Level:      "exploration",
-		Exhaustive: []string{"deep", "long", "huge", "mixed", "fnargs", "utf8edge", "regexlits", "predforms"},
+		Exhaustive: []string{"deep", "long", "huge", "mixed", "fnargs", "utf8edge", "regexlits", "predforms", "cachefill"},
 		Rule: "every recursive construct of the grammar nested to depth 10, 10^2, ... up to the tier's maximum ( ((((1)))), a[a[a[...]]], not(not(...)), -(-(...)), a/((((b)))) - the parseStep/parseSequence cycle -, a/(a/(a/(...))), unterminated a/((((, f(f(f(...))), (a|(a|(...))) ) and every iterative construct to length 3*10^k (a/a/..., 1+1+..., a|a|..., a or a ..., a[1][1]..., a//a..., f(1,1,...), -----1, long names, long strings, long numbers), each through Compile, CompileWithNS (nil, empty, bound, unbound maps) and MustCompile; " +
 			"every ORDERED PAIR of recursive constructs alternating (a[not(a[not(...)])], (a[(a[...])]), f(-(f(-(...)))), ...) to depth 6..1000 - a build step that repeats work per level turns such inputs into a hang; namespace maps with the empty string and malformed strings as keys; " +
-			"grammar-generated valid expressions and their truncations at every byte; every function name x every list of 0-3 arguments over 9 argument kinds (number, string, path, boolean call, invalid regex, parenthesised and negated literals, variable, comparison); seeded random token strings over the token alphabet plus arbitrary bytes (NUL, invalid UTF-8, non-ASCII name characters). The worker's maximum goroutine stack is lowered to 64 MiB so that unbounded recursion surfaces at depth ~10^5. " +
+			"grammar-generated valid expressions and their truncations at every byte; every function name x every list of 0-3 arguments over 9 argument kinds (number, string, path, boolean call, invalid regex, parenthesised and negated literals, variable, comparison); seeded random token strings over the token alphabet plus arbitrary bytes (NUL, invalid UTF-8, non-ASCII name characters). Compile of constant-pattern matches()/replace() goes through the process-wide pattern cache: the (n+1)-th, (n+2)-th ... distinct pattern after the cache is full (default capacity 65536, and client-swapped caches of capacity 1-4) must come back from Compile like the first. The worker's maximum goroutine stack is lowered to 64 MiB so that unbounded recursion surfaces at depth ~10^5. " +
 			"Non-trivial: the input is longer than 8 bytes; distinct by input text (hash).",
 		Assume:        []string{"a fatal runtime error kills only the worker process; the driver attributes it to the case announced last", "CPU budget per case: 150 s (observed maximum for 3 MB inputs: a few seconds)"},
 		MinNontrivial: tierN(50000, 500000),
-		Required:      []string{"deep", "long", "mixed", "fuzz:accepted", "fuzz:rejected", "ns:unbound-rejected", "mustcompile", "fnargs:accepted", "fnargs:rejected", "regexlits", "predforms", "usability_probe", "smallest_inputs"},
+		Required:      []string{"deep", "long", "mixed", "fuzz:accepted", "fuzz:rejected", "ns:unbound-rejected", "mustcompile", "fnargs:accepted", "fnargs:rejected", "regexlits", "predforms", "cachefill", "usability_probe", "smallest_inputs"},
 		Families: []Family{
 			witnessFamily("C06"),
 			{Name: "deep", N: func(t string) int { return len(c06Deep(t)) }, Run: func(c *Case) { c06Construct(c, c06Deep(c.Tier)[c.Index], "deep") }},
@@ -42,6 +43,7 @@ func init() {
 			{CPUBudget: 40, Name: "utf8edge", N: func(string) int { return 160 }, Run: c06UTF8Edge},
 			{CPUBudget: 30, Name: "predforms", N: func(string) int { return len(c06PredCores) * len(c06PredWraps) }, Run: c06PredForms},
 			{CPUBudget: 30, Name: "regexlits", N: func(string) int { return len(c06RegexLits()) }, Run: c06RegexLit},
+			{CPUBudget: 120, Name: "cachefill", N: func(string) int { return 4 }, Run: c06CacheFill},
 		},
 	})
 }
@@ -495,4 +497,77 @@ func c06PredForms(c *Case) {
 		}
 	}
 	c.SampleEvery(23, func() interface{} { return map[string]interface{}{"family": "predforms", "predicate": pred} })
+}
+
+// c06CacheFill: Compile looks every constant pattern of matches()/replace() up in the process-wide RegexpCache. What
+// Compile does may therefore depend on how many distinct patterns the PROCESS has compiled before: the cache fills up,
+// is reset, fills up again. Case 0 walks the default cache (capacity 65536) through two resets; cases 1-3 do the same
+// with a cache the client swapped in (capacity 1, 2, 4; the exported variable exists for that). After every reset the
+// next expressions must still come back from Compile - a lock kept, a map left nil, a counter overflowing would show
+// as a blocked, crashed or panicking Compile (the worker's BLOCKED watchdog decides the first).
+func c06CacheFill(c *Case) {
+	probe := func(tag string, k int) bool {
+		for _, src := range []string{fmt.Sprintf("matches(a, 'cf%s_%dq')", tag, k), fmt.Sprintf("//a[replace(@h, 'cf%s_%d[a-z]+', '-') = 'x']", tag, k), "matches(a, 'cf-again')", "replace('x', 'cf-again', 'y')"} {
+			c.Count("cachefill")
+			c.c06Check(src, "cachefill")
+			if c.Violated() {
+				return false
+			}
+		}
+		return true
+	}
+	fill := func(tag string, n int) bool {
+		for i := 0; i < n; i++ {
+			src := fmt.Sprintf("matches(a, 'cf%s%d')", tag, i)
+			if i%3 == 1 {
+				src = fmt.Sprintf("replace(a, 'cf%s%d', 'r')", tag, i)
+			}
+			var e *xpath.Expr
+			var err error
+			func() {
+				defer func() {
+					if x := recover(); x != nil {
+						pi, _ := classify(x)
+						c.Violation("PANIC-ESCAPED-Compile", map[string]interface{}{"input": src, "construct": "cachefill", "observed": pi.String(), "distinct_patterns_before": i})
+					}
+				}()
+				e, err = xpath.Compile(src)
+			}()
+			c.Rep.Evals++
+			if c.Violated() {
+				return false
+			}
+			if (e == nil) == (err == nil) {
+				c.Violation("NEITHER-EXPR-NOR-ERROR", map[string]interface{}{"input": src, "construct": "cachefill", "observed": fmt.Sprint(e, err), "distinct_patterns_before": i})
+				return false
+			}
+		}
+		return true
+	}
+	if c.Index == 0 {
+		// default cache: past the capacity twice, probing right after each reset and in between
+		for round := 0; round < 2; round++ {
+			if !fill(fmt.Sprintf("d%d_", round), 65536+40) || !probe("d", round) {
+				return
+			}
+		}
+		c.Nontrivial("cachefill|default")
+		c.SampleEvery(1, func() interface{} {
+			return map[string]interface{}{"family": "cachefill", "cache": "default", "distinct_patterns": 2 * (65536 + 40)}
+		})
+		return
+	}
+	capacity := []int{0, 1, 2, 4}[c.Index]
+	saved := xpath.RegexpCache
+	defer func() { xpath.RegexpCache = saved }()
+	xpath.RegexpCache = xpath.NewLoadingCache(func(key interface{}) (interface{}, error) { return regexp.Compile(key.(string)) }, capacity)
+	for round := 0; round < 6; round++ {
+		if !fill(fmt.Sprintf("s%d_%d_", capacity, round), capacity+1+round%3) || !probe(fmt.Sprintf("s%d", capacity), round) {
+			return
+		}
+	}
+	c.Nontrivial(fmt.Sprintf("cachefill|swapped|%d", capacity))
+	c.SampleEvery(1, func() interface{} {
+		return map[string]interface{}{"family": "cachefill", "cache": "swapped", "capacity": capacity}
+	})
 }
